@@ -28,7 +28,7 @@ SKELETONS = [
     ("ipv6-port", "https://[2001:db8::1]:", "/x?k=v"),
 ]
 BOUNDS = {
-    "quick": "21 URL skeletons (hole in path tail/middle/root, username, password, host tail, port, query key/value, fragment, before the scheme, scheme separator, after the host, whole string, and right after a '%' in path / query value / username / fragment) x every hole string of length 0..2 (3 for the path / query holes after a '%') over all code points x quoted x strip_fragment (all four combinations up to length 1, one combination per skeleton beyond) x default_protocol in {https, http}; plus holes made of 2 escape tokens (+ one free character in the path) with symbolic hex digits (bytes >= 0x80) in path / query value / username / fragment",
+    "quick": "21 URL skeletons (hole in path tail/middle/root, username, password, host tail, port, query key/value, fragment, before the scheme, scheme separator, after the host, whole string, and right after a '%' in path / query value / username / fragment) x every hole string of length 0..2 (3 for the path / query holes after a '%') over all code points x quoted x strip_fragment (all four combinations up to length 1, one combination per skeleton beyond) x default_protocol in {https, http}; plus holes made of 2 escape tokens (+ one free character in the path) with symbolic hex digits (bytes >= 0x80) in path / query value / username / fragment; plus an escaped 3-byte character (lead byte EF, symbolic continuation escapes) in the password",
     "thorough": "same skeletons, holes of length 0..4 (3 in netloc positions)",
 }
 STUBS = ["UTF-8 codec, urllib.parse.quote, dict table lookups, regex matcher (see C14)", "stdlib urlsplit / SplitResult properties / urlunsplit interpreted from source",
@@ -41,9 +41,9 @@ LONG = ("path-tail", "path-mid", "path-root", "query-key", "query-value", "fragm
         "userinfo-escape", "fragment-escape", "path-escape-tail")
 
 
-def canon(st, skel, n, quoted, strip_fragment, dp, shape=None):
+def canon(st, skel, n, quoted, strip_fragment, dp, shape=None, lead=""):
     name, pre, post = SKELETONS[skel]
-    hole = sym_tokens(st, "t", shape) if shape else sym_str(st, "s", n)
+    hole = cat(lead, sym_tokens(st, "t", shape)) if shape else sym_str(st, "s", n)
     u = cat(pre, hole, post)
     for label, prop in S.ALL:
         run_prop(st, label, prop, u, quoted, strip_fragment, dp)
@@ -83,4 +83,11 @@ def items(tier):
             for quoted in ((False,) if quick else (False, True)):
                 out.append({"fn": "canon", "params": {"skel": names.index(name), "n": 0, "quoted": quoted, "strip_fragment": quoted, "dp": "https", "shape": sh},
                             "name": "%s tokens=%s quoted=%s" % (name, sh, quoted), "weight": 30 ** len(sh), "defer_depth": 8})
+    # userinfo holding an escaped 3-byte character (fixed lead byte, two symbolic continuation escapes): reaches the
+    # characters whose NFKC form contains a delimiter, which the url parser refuses in a netloc
+    for name, leads in (("password", ["%EF"]), ("userinfo", [])) if quick else (("password", ["%EF", "%E2"]), ("userinfo", ["%EF", "%E2"])):
+        for lead in leads:
+            for quoted in ((False,) if quick else (False, True)):
+                out.append({"fn": "canon", "params": {"skel": names.index(name), "n": 0, "quoted": quoted, "strip_fragment": quoted, "dp": "https", "shape": "ee", "lead": lead},
+                            "name": "%s tokens=%see quoted=%s" % (name, lead, quoted), "weight": 900, "defer_depth": 8})
     return out
